@@ -625,8 +625,16 @@ def handle_sat(spec, inst, st, res, tr, enc, ob, model, seeds, angle_pins, free,
     try:
         obs2 = spec.obligations(enc2, inst, tr2)
     except Exception as e:
-        res.abstraction_cex.append(dict(instance=inst["name"], obligation=ob.name, reason="replay encode failed: %s" % e))
-        return
+        # the pin-free replay encoding can exceed the size limit (every pinned angle becomes an (S,C) atom). The non-free
+        # inputs still have exactly their base-point seeds, so their exact pins remain valid: retry with them.
+        try:
+            kw = {"abstract_big": enc.abstract_big} if hasattr(enc, "abstract_big") else {}
+            enc2 = Encoder(tr2, free=() if free_all else free, angle_pins=angle_pins, free_all=free_all, max_terms=enc.ring.max_terms, **kw)
+            obs2 = spec.obligations(enc2, inst, tr2)
+            res.extra["replays_encoded_with_exact_pins_after_size_limit"] = res.extra.get("replays_encoded_with_exact_pins_after_size_limit", 0) + 1
+        except Exception as e2:
+            res.abstraction_cex.append(dict(instance=inst["name"], obligation=ob.name, reason="replay encode failed: %s / with exact pins: %s" % (e, e2)))
+            return
     ob2 = next((o for o in obs2 if o.name == ob.name), None)
     if ob2 is None:
         res.abstraction_cex.append(dict(instance=inst["name"], obligation=ob.name, reason="obligation absent on replayed path"))
